@@ -2,13 +2,17 @@
 # Collects the confirmed seeded changes from /tmp/seed-Cxx/OUT/changeN and the results of
 # tools/seed_try.sh (/tmp/seedres/Cxx-changeN.txt) into /verif/seeded/<id>/ and prints the DESIGN table.
 import os, json, shutil, re, sys
-needs = json.load(open(os.path.join(os.path.dirname(__file__), 'seed_notes.json')))
+# usage: seed_collect.py [round]   round 1: /tmp/seed-Cxx/OUT + /tmp/seedres  -> ids Cxx-1, Cxx-2
+#                                   round 2: /tmp/seed-Cxx/OUT2 + /tmp/seedres2 -> ids Cxx-3, Cxx-4
+rnd = int(sys.argv[1]) if len(sys.argv) > 1 else 1
+notes_file, outdir, resdir, offset = [("seed_notes.json","OUT","/tmp/seedres",0),("seed_notes2.json","OUT2","/tmp/seedres2",2)][rnd-1]
+needs = json.load(open(os.path.join(os.path.dirname(__file__), notes_file)))
 missed = needs.pop("_missed")
 rows=[]
 for p in range(1,21):
     for c in (1,2):
-        pid="C%02d"%p; sid="%s-%d"%(pid,c)
-        src="/tmp/seed-%s/OUT/change%d"%(pid,c)
+        pid="C%02d"%p; sid="%s-%d"%(pid,c+offset)
+        src="/tmp/seed-%s/%s/change%d"%(pid,outdir,c)
         dst="/verif/seeded/"+sid
         if not os.path.isdir(src): continue
         if os.path.isdir(dst): shutil.rmtree(dst)
@@ -20,7 +24,7 @@ for p in range(1,21):
             os.makedirs(dst+"/demo")
             for f in os.listdir(src+"/demo"):
                 shutil.copy(src+"/demo/"+f, dst+"/demo/"+f)
-        res=open("/tmp/seedres/%s-change%d.txt"%(pid,c)).read()
+        res=open("%s/%s-change%d.txt"%(resdir,pid,c)).read()
         m=re.search(r"build=(\S+) suite=(\S+) demo\(clean\)=(\S+) demo\(patched\)=(\S+)",res)
         det=[]
         for m2 in re.finditer(r"check (\S+) (\S+): exit=(\d+)(?: signature=(\S+) clause=(\S+) count=(\d+))?",res):
@@ -28,11 +32,11 @@ for p in range(1,21):
             if m2.group(4): d.update({"signature":m2.group(4),"violations_counted":int(m2.group(6))})
             det.append(d)
         what,need=needs[sid]
-        meta={"id":sid,"breaks_property":pid,"origin":"independent sub-agent (general-purpose) given only the property text and its own scratch worktree of /repo under /tmp; nothing from /verif",
+        meta={"id":sid,"breaks_property":pid,"origin":("independent sub-agent (general-purpose) given only the property text and its own scratch worktree of /repo under /tmp; nothing from /verif" if rnd==1 else "independent sub-agent (general-purpose, round 2) given the property text, one line each about the two ideas the round-1 seeder had used (to avoid repeats), the instruction to make the change HARD to stumble on, and its own scratch worktree of /repo under /tmp; nothing from /verif"),
               "change":what,"needs_to_manifest":need,
               "files":{"patch":"patch.diff","demonstration":"demo_test.go or demo/main.go (RUN.txt says where to place it in a checkout of the library and how to run it)","notes":"NOTES.md"},
               "confirmed_in_scratch_worktree":{"patch_applies_to":"HEAD of /repo (all fix: commits in)","go_build":m.group(1),"repository_suite_with_change":m.group(2),"demonstration_on_clean_tree":m.group(3),"demonstration_with_change":m.group(4)},
-              "what_was_run":"tools/seed_try.sh %s change%d  (in /tmp/seed-%s: git apply patch.diff, go build ./..., the repository suite, the demonstration per RUN.txt with and without the change, then VERIF_REPO=/tmp/seed-%s ./check %s quick; worktree restored afterwards)"%(pid,c,pid,pid,pid),
+              "round":rnd,"what_was_run":"%stools/seed_try.sh %s change%d  (in /tmp/seed-%s: git apply patch.diff, go build ./..., the repository suite, the demonstration per RUN.txt with and without the change, then VERIF_REPO=/tmp/seed-%s ./check %s quick; worktree restored afterwards)"%("SEED_OUT=OUT2 " if rnd==2 else "",pid,c,pid,pid,pid),
               "checks_run":det,
               "detected_at_quick_tier": any(d["check"]==pid and d["exit"]==1 for d in det),
               "missed_by_the_first_version_of_the_check":sid in missed}
